@@ -46,7 +46,7 @@ BOX_SETUP = """  G_xs[0] = xs0; G_xs[1] = xs1; G_ys[0] = ys0; G_ys[1] = ys1;
   BOX_BEGIN(&G_bx) = G_xs; BOX_END(&G_bx) = G_xs + BOX_D; BOX_CAP(&G_bx) = G_xs + BOX_D; BOX_FLAGS(&G_bx) = fx;
   BOX_BEGIN(&G_by) = G_ys; BOX_END(&G_by) = G_ys + BOX_D; BOX_CAP(&G_by) = G_ys + BOX_D; BOX_FLAGS(&G_by) = fy;
   G_pn[0] = pn0; G_pn[1] = pn1; G_ps[0] = ps0; G_ps[1] = ps1; G_qn[0] = qn0; G_qn[1] = qn1; G_qs[0] = qs0; G_qs[1] = qs1; G_t = tt;
-  __CPROVER_assume(box_wf(&G_bx, G_xs) && box_wf(&G_by, G_ys) && pt_ok() && ns_ok(G_pn[1], G_ps[1]) && ns_ok(G_qn[0], G_qs[0]) && ns_ok(G_qn[1], G_qs[1]));   /* (unused coordinates kept in range too: the spec arithmetic evaluates them) */
+  __CPROVER_assume(box_wf(&G_bx, G_xs) && box_wf(&G_by, G_ys) && pt_ok() && ns_ok(G_pn[0], G_ps[0]) && ns_ok(G_pn[1], G_ps[1]) && ns_ok(G_qn[0], G_qs[0]) && ns_ok(G_qn[1], G_qs[1]));   /* (unused coordinates kept in range too: the spec arithmetic evaluates them) */
   G_satQ0 = box_sat_pt(&G_by, G_ys, GQ(0), GQ(1));
   G_xs0[0] = G_xs[0]; G_xs0[1] = G_xs[1]; G_fx0 = fx;
   G_satX0 = box_sat(&G_bx, G_xs); G_satY0 = box_sat(&G_by, G_ys); G_emptyX0 = box_empty(&G_bx, G_xs); G_emptyY0 = box_empty(&G_by, G_ys);"""
